@@ -106,6 +106,18 @@ CHECKS = {
         design_ref="6.19",
         note=LEVEL_NOTE_COMMON + " The translator's call classification (every call may raise; attribute reads do not) is hand-written and validated by a self-test corpus and the probes.",
     ),
+    "C08": dict(
+        technique="Coq proof (double structural induction on the two-pointer merges: densify(sum/diff/mul) = pointwise op, dot = sum of the product, cursor/limit loop = support intersection) + exact correspondence of the compiled primitives + the property itself over all 4096 support pairs x value pools x every metric in both tables",
+        text=("Theorems in coq/props/C08.v, for all sorted sparse vectors (every support pattern): sparse_sum / sparse_diff / sparse_mul keep the "
+              "indices sorted and densify to the pointwise sum / difference / product; sparse_dot_product equals the sum of the product's "
+              "entries; fast_intersection_size (its cursor-and-limit loop shown equal to the plain merge count) equals the size of the "
+              "intersection of the supports, the quantity every sparse binary metric is a formula of. The compiled primitives reproduce the "
+              "extracted model exactly on integer values; every metric offered for both dense and CSR data is evaluated on all pairs of "
+              "supports over a 6-index universe with signed, all-ones and cancellation-prone value pools, sparse vs dense (JS / symmetric KL vs "
+              "dense on the union of supports)."),
+        design_ref="6.8",
+        note=LEVEL_NOTE_COMMON + " The per-metric formulas on top of the merges (and their float rounding) are compared, not proved; the merge theorems are over exact integers.",
+    ),
 }
 
 REASON_PENDING = "check not built yet in this round (design in DESIGN.md section 6; no claim is made until the check exists)"
